@@ -253,6 +253,9 @@ type Task struct {
 	// exiting is set (by the task itself) once the task unwinds during
 	// teardown; simulated primitives are pass-through from then on.
 	exiting bool
+	// quiet > 0: scheduling points are skipped (harness observation code);
+	// blocking on a held lock still parks.
+	quiet int
 
 	// scheduler-owned
 	state   taskState
@@ -639,7 +642,7 @@ func Yield(site string) {
 
 // Yield parks t at site.
 func (t *Task) Yield(site string) {
-	if t.PassThrough() {
+	if t.PassThrough() || t.quiet > 0 {
 		return
 	}
 	t.park(parkMsg{t: t, kind: mYield, site: site})
@@ -652,6 +655,20 @@ func (t *Task) Block(q *WaitQ, site string) {
 		return
 	}
 	t.park(parkMsg{t: t, kind: mBlock, site: site, wq: q, gen: q.load()})
+}
+
+// Quietly runs f on the calling task without scheduling points: harness
+// observation code (snapshots, probes) is not part of the system under test
+// and should not multiply the schedule space. Blocking still parks.
+func Quietly(f func()) {
+	t := Current()
+	if t == nil {
+		f()
+		return
+	}
+	t.quiet++
+	defer func() { t.quiet-- }()
+	f()
 }
 
 // Aborting reports whether the active run is being torn down.
